@@ -453,6 +453,21 @@ func (ex *Exec) panicEvent(msg string) {
 	ex.stop("panic", msg)
 }
 
+// hangEvent: in harnesses that declare an execution bound (param hangcheck=1), exceeding
+// the instruction budget is a finding (no return within the bound), replayed natively
+// under a watchdog.
+func (ex *Exec) hangEvent() {
+	if ex.Opt.Params["hangcheck"] != "1" || !ex.Opt.Enabled("C04.hang") {
+		return
+	}
+	f := Finding{ID: "C04.hang", Kind: "hang", Msg: fmt.Sprintf("no return within %d SSA instructions", ex.Opt.MaxInstr), Where: ex.where()}
+	if r, m := ex.check(And(ex.defs...), ex.inputTerms()); r != Unsat {
+		f.Inputs = ex.modelToInputs(m)
+		ex.res.Findings = append(ex.res.Findings, f)
+		ex.stop("hang", f.Msg)
+	}
+}
+
 func (ex *Exec) inputTerms() []*Term {
 	ts := make([]*Term, len(ex.inputs))
 	for i, in := range ex.inputs {
@@ -664,6 +679,7 @@ func (ex *Exec) CallFn(fn *ssa.Function, args []Value, bindings []Value) Value {
 		for _, ins := range b.Instrs[nphi:] {
 			ex.instr++
 			if ex.instr > ex.Opt.MaxInstr {
+				ex.hangEvent()
 				ex.stop("unwind", "instruction budget")
 			}
 			switch x := ins.(type) {
